@@ -235,6 +235,9 @@ def observe(fn, fmt):
     try:
         diff, patch = fn()
     except Exception as e:  # noqa - the outcome class is what is compared
+        from mc import core
+        if core.raised_in_harness(e):
+            raise
         return {"st": "exc", "exc": type(e).__name__, "where": _where(e.__traceback__), "msg": str(e)[:200]}
     return {"st": "ok", "diff": diff_entries(diff), "cmds": [_path_json(p) for p in fmt.cmd_paths(patch)],
             "items": patch_items(patch)}
@@ -490,6 +493,9 @@ def workers(hw, old_text, new_text, add_comments, scratch, indent=WORKER_INDENT)
         try:
             return {"st": "ok", "out": fn()}
         except Exception as e:  # noqa
+            from mc import core
+            if core.raised_in_harness(e):
+                raise
             return {"st": "exc", "exc": type(e).__name__, "where": _where(e.__traceback__), "msg": str(e)[:200]}
 
     def dev_trees():
